@@ -558,6 +558,8 @@ class PSock:
 
     def connect(self):
         self.connects += 1
+        if self.connects > 200:
+            raise RuntimeError('more than 200 connections opened')       # a probe driver that keeps reconnecting is cut off (and reported) instead of hanging the check
         if self.connected:
             self.reopened += 1
         self.kexinits_per_conn.append(0)
